@@ -1,5 +1,6 @@
 /* Array case kind of the container engine (C19).
  * ops:  il:<v> if:<v> ia:<idx>:<v>  rf rl ra:<idx>  at:<idx> first last len
+ *       ss:<n> (ares_array_set_size)   fin (anywhere: the case ends with ares_array_finish)
  *       a leading '!' on an insert: the allocator refuses every request during that call
  * output: one line "<k> R tok tok ... dump=v,v,v"
  */
@@ -20,6 +21,7 @@ static void run_arr(long k, char *ops)
   ares_array_t *arr = ares_array_create(sizeof(long long), arr_destruct);
   char         *save = NULL, *op;
   size_t        i;
+  int           fin = 0;
   printf("%ld R", k);
   for (op = strtok_r(ops, ";", &save); op; op = strtok_r(NULL, ";", &save)) {
     long long     v = 0;
@@ -53,6 +55,10 @@ static void run_arr(long k, char *ops)
       if (p) printf(" %lld", *p); else printf(" N");
     } else if (strcmp(op, "len") == 0) {
       printf(" %zu", ares_array_len(arr));
+    } else if (sscanf(op, "ss:%lu", &idx) == 1) {
+      printf(" %d", (int)ares_array_set_size(arr, idx));
+    } else if (strcmp(op, "fin") == 0) {
+      fin = 1;
     } else {
       printf(" BADOP");
     }
@@ -61,6 +67,15 @@ static void run_arr(long k, char *ops)
   printf(" dump=");
   for (i = 0; i < ares_array_len(arr); i++) {
     printf("%s%lld", i ? "," : "", *(long long *)ares_array_at(arr, i));
+  }
+  if (fin) {
+    size_t     n = 0;
+    long long *p = ares_array_finish(arr, &n);
+    printf(" fin=");
+    for (i = 0; i < n; i++) printf("%s%lld", i ? "," : "", p[i]);
+    ares_free(p);
+    printf("\n");
+    return;
   }
   printf("\n");
   ares_array_destroy(arr);
